@@ -429,3 +429,23 @@ Proof.
   - apply IH; [assumption | apply N.mod_lt; discriminate |].
     rewrite ref_next_key_eq by assumption. apply enc_next_key_lt; assumption.
 Qed.
+
+(* ---- interoperability with the reference byte cipher (whole dwords only) --------------- *)
+From WR Require Import Mpq.MpqRef.
+
+Lemma encrypt_data_eq_ref bs key n :
+  length bs = (4 * n)%nat -> (0 < n)%nat -> key <> 0 -> key < M32 ->
+  encrypt_data bs key = r_crypt true bs key.
+Proof.
+  intros Hl Hn Hk Hlt. unfold encrypt_data, r_crypt.
+  assert (Enil : is_nil bs = false) by (destruct bs; [cbn in Hl; lia | reflexivity]).
+  rewrite Enil. replace (key =? 0) with false by (symmetry; apply N.eqb_neq; exact Hk). cbn [orb].
+  assert (Ed : Nat.div (length bs) 4 = n) by (rewrite Hl, Nat.mul_comm; apply Nat.div_mul; lia).
+  rewrite Ed. rewrite <- Hl. rewrite firstn_all, skipn_all. unfold enc_tail, enc_head.
+  rewrite encrypt_block_eq_ref by assumption. reflexivity.
+Qed.
+
+(* the two known interoperability differences, as concrete witnesses *)
+Lemma interop_tail_differs :
+  encrypt_data [1; 2; 3; 4; 5] 4660 <> r_crypt true [1; 2; 3; 4; 5] 4660.
+Proof. vm_compute. discriminate. Qed.
